@@ -22,7 +22,7 @@ RUNS = {"quick": 4000, "thorough": 400000}
 WALL = {"quick": 280, "thorough": 3500}
 RULE = ("one run = shaped GFA1 graph (match-only / '*' overlaps) + scheduled delivery + optional "
         "mutations + merge_linear_paths twice; distinct = distinct (end-graph digest, order) pairs")
-PROBES = ["chain_ge3", "mixed_orientation_chain", "branching_junction", "cycle", 
+PROBES = ["gfa2_graph", "mixed_sequences", "chain_ge3", "mixed_orientation_chain", "branching_junction", "cycle", 
           "hairpin_on_end", "two_chains_one_junction", "without_sequences", "merged_something",
           "nothing_to_merge", "after_mutation", "idempotent_checked", "star_overlap", "other_lines_present"]
 
@@ -42,7 +42,8 @@ def gen_shape(rng, k):
     segs = []
     links = []      # (from, fo, to, to_o, cigar)
     chains = []
-    with_seq = rng.random() < 0.75
+    with_seq = rng.choice([True, True, True, False, "mixed"])
+    version = k.get("version", "gfa1")
     ovstyle = rng.choice(["match", "star", "mixed"])
 
     def ov():
@@ -80,14 +81,35 @@ def gen_shape(rng, k):
         seen.add(key)
         ulinks.append(l)
     lines = []
+    seglen = {}
     for s in segs:
         n = rng.randint(5, 12)
-        if with_seq:
+        seglen[s] = n
+        has = with_seq is True or (with_seq == "mixed" and rng.random() < 0.6)
+        if version == "gfa2":
+            lines.append("S\t%s\t%d\t%s" % (s, n, G.rand_seq(rng, n) if has else "*"))
+        elif has:
             lines.append("S\t%s\t%s" % (s, G.rand_seq(rng, n)))
         else:
-            lines.append("S\t%s\t*\tLN:i:%d" % (s, n) if rng.random() < 0.6 else "S\t%s\t*" % s)
-    for l in ulinks:
-        lines.append("\t".join(["L"] + list(l)))
+            lines.append("S\t%s\t*\tLN:i:%d" % (s, n) if (rng.random() < 0.6 or with_seq == "mixed") else "S\t%s\t*" % s)
+    for j, l in enumerate(ulinks):
+        if version == "gfa1":
+            lines.append("\t".join(["L"] + list(l)))
+        else:
+            a, oa, b, ob, c = l
+            n = 0 if c == "*" else int(c[:-1])
+            la, lb = seglen[a], seglen[b]
+            b1, e1 = (la - n, la) if oa == "+" else (0, n)
+            b2, e2 = (0, n) if ob == "+" else (lb - n, lb)
+            lines.append("\t".join(["E", "e%d" % j if rng.random() < 0.7 else "*", a + oa, b + ob, G.pos_str(b1, la), G.pos_str(e1, la),
+                                    G.pos_str(b2, lb), G.pos_str(e2, lb), c]))
+    if version == "gfa2":
+        if rng.random() < 0.3 and len(segs) >= 2:
+            a, b = rng.sample(segs, 2)
+            lines.append("E\t*\t%s+\t%s+\t1\t3\t0\t%d$\t*" % (a, b, seglen[b]))     # a containment
+        if rng.random() < 0.3:
+            lines.append("U\tuu\t%s" % rng.choice(segs))
+        return lines
     # a few other lines (containment, path) to check that untouched lines stay / touched ones go
     if rng.random() < 0.4 and len(segs) >= 2:
         a, b = rng.sample(segs, 2)
@@ -100,11 +122,12 @@ def gen_shape(rng, k):
 
 def gen(streams, tier, i):
     cfg = streams.get("config")
-    k = {"p_self": cfg.choice([0.0, 0.0, 0.3])}
+    version = cfg.choice(["gfa1", "gfa1", "gfa2"])
+    k = {"p_self": cfg.choice([0.0, 0.0, 0.3]), "version": version}
     lines = gen_shape(streams.get("document"), k)
     sr = streams.get("schedule")
     order, mode = hist.schedule(sr, lines)
-    ops = [{"op": "new", "vlevel": cfg.choice([0, 1, 1, 2, 3]), "version": cfg.choice([None, "gfa1"])}]
+    ops = [{"op": "new", "vlevel": cfg.choice([0, 1, 1, 2, 3]), "version": cfg.choice([None, version])}]
     for ln in order:
         ops.append({"op": "add", "line": ln, "as": "str"})
     ops.append({"op": "flush"})
@@ -119,18 +142,33 @@ def gen(streams, tier, i):
     ops.append({"op": "linear_paths"})
     ops.append({"op": "merge"})
     ops.append({"op": "merge_again"})
-    return {"cfg": {"order": mode}, "ops": ops}
+    return {"cfg": {"order": mode, "version": version}, "ops": ops}
 
 
 # ------------------------------------------------------------------ model on the written text
 class EndGraph:
-    def __init__(self, text_lines):
+    def __init__(self, text_lines, version="gfa1"):
         self.seq = {}
         self.length = {}
         self.links = []     # (a, ea, b, eb, cigar, raw_line)
         self.other = []
+        self.version = version
         for ln in text_lines:
             f = ln.split("\t")
+            if version == "gfa2":
+                if f[0] == "S":
+                    self.seq[f[1]] = f[3]
+                    self.length[f[1]] = int(f[2])
+                elif f[0] == "E":
+                    from ..model import classify_edge
+                    t, k1, k2 = classify_edge(f[2][-1], f[4], f[5], f[3][-1], f[6], f[7])
+                    if t == "dovetail":
+                        self.links.append((f[2][:-1], k1[-1], f[3][:-1], k2[-1], f[8], ln))
+                    else:
+                        self.other.append(ln)
+                elif f[0] not in ("H",) and not ln.startswith("#"):
+                    self.other.append(ln)
+                continue
             if f[0] == "S":
                 self.seq[f[1]] = f[2]
                 ln_ = [x for x in f[3:] if x.startswith("LN:i:")]
@@ -253,12 +291,14 @@ def run(scn, st):
             continue
         st.step()
         st.count("op." + k)
-        if g.version != "gfa1":
+        version = scn["cfg"].get("version", "gfa1")
+        if g.version != version:
             return
         if any(l.virtual for l in ob.reachable_lines(g)):
             return
         if k == "linear_paths":
-            pre = EndGraph(ob.text_lines(g))
+            pre = EndGraph(ob.text_lines(g), version)
+            pre.valid = core.call(g.validate).ok
             if mutated:
                 st.count("probe.after_mutation")
             paths, cycles = pre.chains()
@@ -297,12 +337,18 @@ def run(scn, st):
                                      exc=o.excname, frame=o.frame,
                                      selfl=any(a == b for a, ea, b, eb, c, _ in pre.links))
             check_merge(g, pre, paths, cycles, st)
+            if getattr(pre, "valid", False):
+                vv = core.call(g.validate)
+                st.count("oracle.valid_after_merge")
+                if not vv.ok:
+                    raise core.Violation("merge-invalidates", "the graph was valid before merge_linear_paths and is not after: %s: %s" %
+                                         (vv.excname, str(vv.exc)[:300]), exc=vv.excname, version=version)
         elif k == "merge_again":
             if pre is None:
                 return
             t1 = sorted(ob.text_lines(g))
             d1 = digest(ob.observe(g))
-            eg1 = EndGraph(ob.text_lines(g))
+            eg1 = EndGraph(ob.text_lines(g), version)
             p1, c1 = eg1.chains()
             o = core.call(g.merge_linear_paths)
             st.count("probe.idempotent_checked")
@@ -321,6 +367,11 @@ def run(scn, st):
 
 
 def probes(eg, paths, cycles, st):
+    if eg.version == "gfa2":
+        st.count("probe.gfa2_graph")
+    vals = list(eg.seq.values())
+    if any(q == "*" for q in vals) and any(q != "*" for q in vals):
+        st.count("probe.mixed_sequences")
     if any(len(wk) >= 3 for wk, _c in paths):
         st.count("probe.chain_ge3")
     if any(len(set(o for _s, o in wk)) == 2 for wk, _c in paths):
@@ -349,7 +400,7 @@ def probes(eg, paths, cycles, st):
 
 
 def check_merge(g, pre, paths, cycles, st):
-    post = EndGraph(ob.text_lines(g))
+    post = EndGraph(ob.text_lines(g), pre.version)
     try:
         inv.closed_symmetric(g)
     except inv.Bad as b:
@@ -425,7 +476,11 @@ def check_merge(g, pre, paths, cycles, st):
     for ln in pre.other:
         f = ln.split("\t")
         touched = False
-        if f[0] == "C":
+        if f[0] == "E":
+            touched = f[2][:-1] in chain_segs or f[3][:-1] in chain_segs or f[2][:-1] in cyc_segs or f[3][:-1] in cyc_segs
+        elif f[0] == "U":
+            touched = any(x in chain_segs or x in cyc_segs for x in f[2].split(" "))
+        elif f[0] == "C":
             touched = f[1] in chain_segs or f[3] in chain_segs or f[1] in cyc_segs or f[3] in cyc_segs
         elif f[0] == "P":
             touched = any(x[:-1] in chain_segs or x[:-1] in cyc_segs for x in f[2].split(","))
